@@ -14,17 +14,22 @@ def main(argv):
     ap.add_argument("--jobs", type=int)
     ap.add_argument("--seed", type=int)
     a = ap.parse_args(argv)
-    if os.environ.get("TORNADO_VERIF") != "1" or os.environ.get("PYTHONHASHSEED") != "0":
+    if os.environ.get("TORNADO_VERIF") != "1" or "PYTHONHASHSEED" not in os.environ:
         print("HARNESS-ERROR: run through ./check", file=sys.stderr)
         return 2
     import tornado
-    if not os.path.abspath(tornado.__file__).startswith("/repo/"):
-        print("HARNESS-ERROR: tornado not imported from /repo", file=sys.stderr)
+    want = os.path.abspath(os.environ.get("VERIF_REPO", "/repo")) + "/"
+    if not os.path.abspath(tornado.__file__).startswith(want):
+        print(f"HARNESS-ERROR: tornado not imported from {want}", file=sys.stderr)
         return 2
     from sim import runner
     mod = importlib.import_module("props." + a.prop.lower())
     if a.replay:
         return runner.replay(mod, a.replay)
+    if a.tier == "digests":
+        return runner.digests(mod, os.environ.get("VERIF_TIER") or "quick",
+                              int(os.environ.get("VERIF_SEED", "0") or 0),
+                              a.count or 200, a.jobs or 1)
     tier = a.tier or os.environ.get("VERIF_TIER") or "quick"
     if tier not in ("quick", "thorough"):
         print("HARNESS-ERROR: tier must be quick or thorough", file=sys.stderr)
